@@ -16,6 +16,7 @@ func init() {
 			"D2 the shard is chosen by the series key alone: HashID reads only point.key, ShardFor depends only on HashID and len(Shards), every writer of point.key is a canonicalising constructor (frozen table) and the tag sort of the line-protocol scanner covers all tags; " +
 			"D3 mapping neither loses nor duplicates a point: on every path through one iteration of MapShards' mapping loop the point is appended to Dropped or mapped exactly once, and every iteration of the group-resolution loop that is not skipped by the guard adds a group or fails the request (a missing group is an error, never a silent drop); " +
 			"D4 the retention cut-off is `point time < now - Duration` for finite policies and the guard of the resolution loop is cutoff-or-covered. " +
+			"D3 also: the shard pointer kept by MapPoint is the address of a variable of the current iteration. " +
 			"NOT decided: agreement between nodes' metadata caches at the moment of the write; the hash function itself.",
 		RuleText:    "obligation = (rule, function/site/field); field-dependency closure; exhaustive predicate evaluation; per-iteration path counting; marked path exploration",
 		Assumptions: commonAssumptions,
